@@ -723,6 +723,8 @@ fn body(run: &Run, replay: Option<&Value>) {
             println!("replay counters: {:?}", l.c);
         } else if case["family"] == "gsub" {
             gsub_path::replay(run, case);
+        } else if case["family"] == "gsub_promo" {
+            gsub_path::replay_promo(run, case);
         } else if case["family"] == "table" {
             tables_path::replay(run, case);
         } else if case["family"] == "writer" {
@@ -747,6 +749,7 @@ fn body(run: &Run, replay: Option<&Value>) {
         run.cap_hit("C05_ONLY=public: graph family skipped");
         public_path::run_all(run);
         gsub_path::run_all(run);
+        gsub_path::run_promo(run);
         tables_path::run_all(run);
         writer_path::run_all(run);
         return;
@@ -908,6 +911,7 @@ fn body(run: &Run, replay: Option<&Value>) {
     }
     public_path::run_all(run);
     gsub_path::run_all(run);
+    gsub_path::run_promo(run);
     tables_path::run_all(run);
     writer_path::run_all(run);
 }
